@@ -26,3 +26,9 @@ pub assume_specification [ContainedSpan::new] (a: TokenReference, b: TokenRefere
     ensures span_open(r) == a, span_close(r) == b;
 pub assume_specification [TokenType::spaces] (n: usize) -> (r: TokenType);
 pub assume_specification [TokenType::tabs] (n: usize) -> (r: TokenType);
+// layout-only queries: no functional contract needed (results are unconstrained to the proofs)
+pub assume_specification [BinOp::precedence] (b: &BinOp) -> (r: u8);
+pub assume_specification [BinOp::is_right_associative] (b: &BinOp) -> (r: bool);
+pub assume_specification [<BinOp as Clone>::clone] (b: &BinOp) -> (r: BinOp) ensures r == *b;
+pub assume_specification [<Expression as Clone>::clone] (b: &Expression) -> (r: Expression) ensures r == *b;
+pub assume_specification [<TokenReference as Clone>::clone] (b: &TokenReference) -> (r: TokenReference) ensures r == *b;
